@@ -551,7 +551,7 @@ fn read_block_unit<const HS: usize, const DEV: usize>() {
     forget(records);
 }
 
-//@ harness props=C03,C06,C07 tier=thorough optional=yes unwind=6 unwindset=update_table:300,ref_crc32.0:10,ref_crc32.1:300,default_read_exact:4,flush_zero_padding:4,decompress:4,spec_fill:8200,read_block_unit:6 mem_gb=12 timeout=900 native=no
+//@ harness props=C03,C06,C07 tier=thorough optional=yes unwind=6 unwindset=update_table:300,ref_crc32.0:10,ref_crc32.1:300,default_read_exact:4,flush_zero_padding:4,decompress:4,spec_fill:8200,read_block_unit:6 mem_gb=12 timeout=900 native=no cbmc=--max-field-sensitivity-array-size;512
 //@ bound: read_block as a whole on a concrete layout: header size byte 3, one uncompressed LZMA2 chunk of 2 symbolic bytes, check None; well-formed
 #[cfg_attr(kani, kani::proof)]
 #[cfg_attr(kani, kani::stub(std::fmt::format, crate::verif_common::stub_format))]
@@ -562,7 +562,7 @@ pub fn xzblk_read_block_hs3_dev0() {
     read_block_unit::<3, 0>()
 }
 
-//@ harness props=C03,C06,C07 tier=thorough optional=yes unwind=6 unwindset=update_table:300,ref_crc32.0:10,ref_crc32.1:300,default_read_exact:4,flush_zero_padding:4,decompress:4,spec_fill:8200,read_block_unit:6 mem_gb=12 timeout=900 native=no
+//@ harness props=C03,C06,C07 tier=thorough optional=yes unwind=6 unwindset=update_table:300,ref_crc32.0:10,ref_crc32.1:300,default_read_exact:4,flush_zero_padding:4,decompress:4,spec_fill:8200,read_block_unit:6 mem_gb=12 timeout=900 native=no cbmc=--max-field-sensitivity-array-size;512
 //@ bound: read_block as a whole on a concrete layout: header size byte 3, one uncompressed LZMA2 chunk of 2 symbolic bytes, check None; header CRC32 off by one bit
 #[cfg_attr(kani, kani::proof)]
 #[cfg_attr(kani, kani::stub(std::fmt::format, crate::verif_common::stub_format))]
@@ -573,7 +573,7 @@ pub fn xzblk_read_block_hs3_dev1() {
     read_block_unit::<3, 1>()
 }
 
-//@ harness props=C03,C06,C07 tier=thorough optional=yes unwind=6 unwindset=update_table:300,ref_crc32.0:10,ref_crc32.1:300,default_read_exact:4,flush_zero_padding:4,decompress:4,spec_fill:8200,read_block_unit:6 mem_gb=12 timeout=900 native=no
+//@ harness props=C03,C06,C07 tier=thorough optional=yes unwind=6 unwindset=update_table:300,ref_crc32.0:10,ref_crc32.1:300,default_read_exact:4,flush_zero_padding:4,decompress:4,spec_fill:8200,read_block_unit:6 mem_gb=12 timeout=900 native=no cbmc=--max-field-sensitivity-array-size;512
 //@ bound: read_block as a whole on a concrete layout: header size byte 3, one uncompressed LZMA2 chunk of 2 symbolic bytes, check None; non-zero block padding byte
 #[cfg_attr(kani, kani::proof)]
 #[cfg_attr(kani, kani::stub(std::fmt::format, crate::verif_common::stub_format))]
@@ -584,7 +584,7 @@ pub fn xzblk_read_block_hs3_dev2() {
     read_block_unit::<3, 2>()
 }
 
-//@ harness props=C03,C06,C07 tier=thorough optional=yes unwind=6 unwindset=update_table:300,ref_crc32.0:10,ref_crc32.1:300,default_read_exact:4,flush_zero_padding:4,decompress:4,spec_fill:8200,read_block_unit:6 mem_gb=12 timeout=900 native=no
+//@ harness props=C03,C06,C07 tier=thorough optional=yes unwind=6 unwindset=update_table:300,ref_crc32.0:10,ref_crc32.1:300,default_read_exact:4,flush_zero_padding:4,decompress:4,spec_fill:8200,read_block_unit:6 mem_gb=12 timeout=900 native=no cbmc=--max-field-sensitivity-array-size;512
 //@ bound: read_block as a whole on a concrete layout: header size byte 3, one uncompressed LZMA2 chunk of 2 symbolic bytes, check None; non-zero header padding byte
 #[cfg_attr(kani, kani::proof)]
 #[cfg_attr(kani, kani::stub(std::fmt::format, crate::verif_common::stub_format))]
@@ -595,7 +595,7 @@ pub fn xzblk_read_block_hs3_dev3() {
     read_block_unit::<3, 3>()
 }
 
-//@ harness props=C03,C06,C07 tier=thorough optional=yes unwind=6 unwindset=update_table:300,ref_crc32.0:10,ref_crc32.1:300,default_read_exact:4,flush_zero_padding:4,decompress:4,spec_fill:8200,read_block_unit:6 mem_gb=12 timeout=900 native=no
+//@ harness props=C03,C06,C07 tier=thorough optional=yes unwind=6 unwindset=update_table:300,ref_crc32.0:10,ref_crc32.1:300,default_read_exact:4,flush_zero_padding:4,decompress:4,spec_fill:8200,read_block_unit:6 mem_gb=12 timeout=900 native=no cbmc=--max-field-sensitivity-array-size;512
 //@ bound: read_block as a whole on a concrete layout: header size byte 64, one uncompressed LZMA2 chunk of 2 symbolic bytes, check None; well-formed, 256-byte block header (size byte 0x40)
 #[cfg_attr(kani, kani::proof)]
 #[cfg_attr(kani, kani::stub(std::fmt::format, crate::verif_common::stub_format))]
@@ -617,6 +617,9 @@ pub fn xzblk_read_block_hs64_dev0() {
 use std::sync::atomic::{AtomicU64, Ordering};
 pub static BH_PACKED: AtomicU64 = AtomicU64::new(u64::MAX);
 pub static BH_UNPACKED: AtomicU64 = AtomicU64::new(u64::MAX);
+/// 1 = the size fields are present (concrete per instance: a symbolic Option discriminant in
+/// the returned header made the query time out)
+pub static BH_PRESENT: AtomicU64 = AtomicU64::new(0);
 
 pub fn scripted_block_header<R: io::BufRead>(input: &mut R, _header_size: u64) -> error::Result<BlockHeader> {
     // drain: at most two refills for the sizes used here
@@ -640,14 +643,14 @@ pub fn scripted_block_header<R: io::BufRead>(input: &mut R, _header_size: u64) -
     filters.push(Filter { filter_id: FilterId::Lzma2, props });
     Ok(BlockHeader {
         filters,
-        packed_size: if p == u64::MAX { None } else { Some(p) },
-        unpacked_size: if u == u64::MAX { None } else { Some(u) },
+        packed_size: if BH_PRESENT.load(Ordering::Relaxed) == 1 { Some(p) } else { None },
+        unpacked_size: if BH_PRESENT.load(Ordering::Relaxed) == 1 { Some(u) } else { None },
     })
 }
 
 /// HS: header size byte. Symbolic: declared compressed / uncompressed sizes (or absent), the
 /// header CRC field, the block padding bytes, the two payload bytes, check = None or CRC32 field.
-fn read_block_fields<const HS: usize, const CHECK: u8, const SYM: u8>() {
+fn read_block_fields<const HS: usize, const CHECK: u8, const SYM: u8, const N: usize>() {
     let mut t = Tape::<48>::new();
     let d0 = t.u8();
     let d1 = t.u8();
@@ -662,8 +665,10 @@ fn read_block_fields<const HS: usize, const CHECK: u8, const SYM: u8>() {
     let chk = [t.u8(), t.u8(), t.u8(), t.u8()];
     BH_PACKED.store(packed, Ordering::Relaxed);
     BH_UNPACKED.store(unpacked, Ordering::Relaxed);
+    let present = SYM == 2 || SYM == 4;
+    BH_PRESENT.store(if present { 1 } else { 0 }, Ordering::Relaxed);
     let hlen = HS * 4;
-    let mut f = [0u8; 300];
+    let mut f = [0u8; N];
     f[0] = HS as u8;
     f[1] = 0x00;
     f[2] = 0x21;
@@ -701,7 +706,7 @@ fn read_block_fields<const HS: usize, const CHECK: u8, const SYM: u8>() {
     }
     let total = q + check_len;
     f[total] = 0xEE;
-    let mut rd = ArrReader::<300>::new(f, total + 1);
+    let mut rd = ArrReader::<N>::new(f, total + 1);
     let mut sink = RecSink::<4>::new();
     let mut records: Vec<Record> = Vec::with_capacity(2);
     let (ok, counted) = {
@@ -723,8 +728,8 @@ fn read_block_fields<const HS: usize, const CHECK: u8, const SYM: u8>() {
     }
     let check_ok = CHECK != 1 || u32::from_le_bytes(chk) == ref_crc32(&[d0, d1]);
     let canon = crc_field == want_crc
-        && (packed == u64::MAX || packed == real_packed)
-        && (unpacked == u64::MAX || unpacked == 2)
+        && (!present || packed == real_packed)
+        && (!present || unpacked == 2)
         && pad_zero
         && check_ok;
     vassert!(ok == canon, "read_block: accepted iff header CRC32, declared compressed and uncompressed sizes, zero block padding and the block check all agree with the decoded data");
@@ -741,7 +746,7 @@ fn read_block_fields<const HS: usize, const CHECK: u8, const SYM: u8>() {
     forget(records);
 }
 
-//@ harness props=C03,C06,C07 tier=thorough optional=yes unwind=6 unwindset=update_table:300,ref_crc32.0:10,ref_crc32.1:300,default_read_exact:4,decompress:4,scripted_block_header:5,read_block_fields:5,spec_fill:8200 mem_gb=12 timeout=900 native=no
+//@ harness props=C03,C06,C07 tier=quick unwind=6 unwindset=update_table:300,ref_crc32.0:10,ref_crc32.1:300,default_read_exact:4,decompress:4,scripted_block_header:5,read_block_fields:5,spec_fill:8200 mem_gb=12 timeout=900 native=no
 //@ bound: read_block with the header parser replaced by its contract: 12-byte header, no check; symbolic header CRC field, declared sizes (or absent), block padding bytes, 2 payload bytes (one uncompressed LZMA2 chunk)
 #[cfg_attr(kani, kani::proof)]
 #[cfg_attr(kani, kani::stub(std::fmt::format, crate::verif_common::stub_format))]
@@ -750,10 +755,10 @@ fn read_block_fields<const HS: usize, const CHECK: u8, const SYM: u8>() {
 #[cfg_attr(kani, kani::stub(crate::decode::lzma::DecoderState::new, crate::decode::stream::verif_h::new_scripted_lit))]
 #[cfg_attr(kani, kani::stub(crate::decode::lzbuffer::LzAccumBuffer::from_stream, crate::decode::lzbuffer::verif_h::accum_from_stream_with_capacity))]
 pub fn xzblk_read_block_fields_hs3_chk0() {
-    read_block_fields::<3, 0, 4>()
+    read_block_fields::<3, 0, 4, 64>()
 }
 
-//@ harness props=C03,C06,C07 tier=thorough optional=yes unwind=6 unwindset=update_table:300,ref_crc32.0:10,ref_crc32.1:300,default_read_exact:4,decompress:4,scripted_block_header:5,read_block_fields:5,spec_fill:8200 mem_gb=12 timeout=900 native=no
+//@ harness props=C03,C06,C07 tier=quick unwind=6 unwindset=update_table:300,ref_crc32.0:10,ref_crc32.1:300,default_read_exact:4,decompress:4,scripted_block_header:5,read_block_fields:5,spec_fill:8200 mem_gb=12 timeout=900 native=no
 //@ bound: read_block with the header parser replaced by its contract: 12-byte header, CRC32 check field symbolic; symbolic header CRC field, declared sizes (or absent), block padding bytes, 2 payload bytes (one uncompressed LZMA2 chunk)
 #[cfg_attr(kani, kani::proof)]
 #[cfg_attr(kani, kani::stub(std::fmt::format, crate::verif_common::stub_format))]
@@ -762,10 +767,10 @@ pub fn xzblk_read_block_fields_hs3_chk0() {
 #[cfg_attr(kani, kani::stub(crate::decode::lzma::DecoderState::new, crate::decode::stream::verif_h::new_scripted_lit))]
 #[cfg_attr(kani, kani::stub(crate::decode::lzbuffer::LzAccumBuffer::from_stream, crate::decode::lzbuffer::verif_h::accum_from_stream_with_capacity))]
 pub fn xzblk_read_block_fields_hs3_chk1() {
-    read_block_fields::<3, 1, 4>()
+    read_block_fields::<3, 1, 4, 64>()
 }
 
-//@ harness props=C03,C06,C07 tier=thorough optional=yes unwind=6 unwindset=update_table:300,ref_crc32.0:10,ref_crc32.1:300,default_read_exact:4,decompress:4,scripted_block_header:5,read_block_fields:5,spec_fill:8200 mem_gb=12 timeout=900 native=no
+//@ harness props=C03,C06,C07 tier=quick unwind=6 unwindset=update_table:300,ref_crc32.0:10,ref_crc32.1:300,default_read_exact:4,decompress:4,scripted_block_header:5,read_block_fields:5,spec_fill:8200 mem_gb=12 timeout=900 native=no cbmc=--max-field-sensitivity-array-size;512
 //@ bound: read_block with the header parser replaced by its contract: 256-byte header (size byte 0x40), no check; symbolic header CRC field, declared sizes (or absent), block padding bytes, 2 payload bytes (one uncompressed LZMA2 chunk)
 #[cfg_attr(kani, kani::proof)]
 #[cfg_attr(kani, kani::stub(std::fmt::format, crate::verif_common::stub_format))]
@@ -774,10 +779,10 @@ pub fn xzblk_read_block_fields_hs3_chk1() {
 #[cfg_attr(kani, kani::stub(crate::decode::lzma::DecoderState::new, crate::decode::stream::verif_h::new_scripted_lit))]
 #[cfg_attr(kani, kani::stub(crate::decode::lzbuffer::LzAccumBuffer::from_stream, crate::decode::lzbuffer::verif_h::accum_from_stream_with_capacity))]
 pub fn xzblk_read_block_fields_hs64_chk0() {
-    read_block_fields::<64, 0, 4>()
+    read_block_fields::<64, 0, 4, 300>()
 }
 
-//@ harness props=C03,C06,C07 tier=thorough optional=yes unwind=6 unwindset=update_table:300,ref_crc32.0:10,ref_crc32.1:300,default_read_exact:4,decompress:4,scripted_block_header:5,read_block_fields:5,spec_fill:8200 mem_gb=12 timeout=900 native=no opt_covers=declared_size_mismatch_rejected,nonzero_block_padding_rejected
+//@ harness props=C03,C06,C07 tier=quick unwind=6 unwindset=update_table:300,ref_crc32.0:10,ref_crc32.1:300,default_read_exact:4,decompress:4,scripted_block_header:5,read_block_fields:5,spec_fill:8200 mem_gb=12 timeout=900 native=no opt_covers=declared_size_mismatch_rejected,nonzero_block_padding_rejected
 //@ bound: read_block with the header parser replaced by its contract, 12-byte header, no check, 2 symbolic payload bytes; every field concrete and right
 #[cfg_attr(kani, kani::proof)]
 #[cfg_attr(kani, kani::stub(std::fmt::format, crate::verif_common::stub_format))]
@@ -786,10 +791,10 @@ pub fn xzblk_read_block_fields_hs64_chk0() {
 #[cfg_attr(kani, kani::stub(crate::decode::lzma::DecoderState::new, crate::decode::stream::verif_h::new_scripted_lit))]
 #[cfg_attr(kani, kani::stub(crate::decode::lzbuffer::LzAccumBuffer::from_stream, crate::decode::lzbuffer::verif_h::accum_from_stream_with_capacity))]
 pub fn xzblk_read_block_sym0() {
-    read_block_fields::<3, 0, 0>()
+    read_block_fields::<3, 0, 0, 64>()
 }
 
-//@ harness props=C03,C06,C07 tier=thorough optional=yes unwind=6 unwindset=update_table:300,ref_crc32.0:10,ref_crc32.1:300,default_read_exact:4,decompress:4,scripted_block_header:5,read_block_fields:5,spec_fill:8200 mem_gb=12 timeout=900 native=no opt_covers=declared_size_mismatch_rejected,nonzero_block_padding_rejected
+//@ harness props=C03,C06,C07 tier=quick unwind=6 unwindset=update_table:300,ref_crc32.0:10,ref_crc32.1:300,default_read_exact:4,decompress:4,scripted_block_header:5,read_block_fields:5,spec_fill:8200 mem_gb=12 timeout=900 native=no opt_covers=declared_size_mismatch_rejected,nonzero_block_padding_rejected
 //@ bound: read_block with the header parser replaced by its contract, 12-byte header, no check, 2 symbolic payload bytes; header CRC32 field symbolic
 #[cfg_attr(kani, kani::proof)]
 #[cfg_attr(kani, kani::stub(std::fmt::format, crate::verif_common::stub_format))]
@@ -798,10 +803,10 @@ pub fn xzblk_read_block_sym0() {
 #[cfg_attr(kani, kani::stub(crate::decode::lzma::DecoderState::new, crate::decode::stream::verif_h::new_scripted_lit))]
 #[cfg_attr(kani, kani::stub(crate::decode::lzbuffer::LzAccumBuffer::from_stream, crate::decode::lzbuffer::verif_h::accum_from_stream_with_capacity))]
 pub fn xzblk_read_block_sym1() {
-    read_block_fields::<3, 0, 1>()
+    read_block_fields::<3, 0, 1, 64>()
 }
 
-//@ harness props=C03,C06,C07 tier=thorough optional=yes unwind=6 unwindset=update_table:300,ref_crc32.0:10,ref_crc32.1:300,default_read_exact:4,decompress:4,scripted_block_header:5,read_block_fields:5,spec_fill:8200 mem_gb=12 timeout=900 native=no opt_covers=nonzero_block_padding_rejected
+//@ harness props=C03,C06,C07 tier=quick unwind=6 unwindset=update_table:300,ref_crc32.0:10,ref_crc32.1:300,default_read_exact:4,decompress:4,scripted_block_header:5,read_block_fields:5,spec_fill:8200 mem_gb=12 timeout=900 native=no opt_covers=nonzero_block_padding_rejected
 //@ bound: read_block with the header parser replaced by its contract, 12-byte header, no check, 2 symbolic payload bytes; declared compressed/uncompressed sizes symbolic
 #[cfg_attr(kani, kani::proof)]
 #[cfg_attr(kani, kani::stub(std::fmt::format, crate::verif_common::stub_format))]
@@ -810,10 +815,10 @@ pub fn xzblk_read_block_sym1() {
 #[cfg_attr(kani, kani::stub(crate::decode::lzma::DecoderState::new, crate::decode::stream::verif_h::new_scripted_lit))]
 #[cfg_attr(kani, kani::stub(crate::decode::lzbuffer::LzAccumBuffer::from_stream, crate::decode::lzbuffer::verif_h::accum_from_stream_with_capacity))]
 pub fn xzblk_read_block_sym2() {
-    read_block_fields::<3, 0, 2>()
+    read_block_fields::<3, 0, 2, 64>()
 }
 
-//@ harness props=C03,C06,C07 tier=thorough optional=yes unwind=6 unwindset=update_table:300,ref_crc32.0:10,ref_crc32.1:300,default_read_exact:4,decompress:4,scripted_block_header:5,read_block_fields:5,spec_fill:8200 mem_gb=12 timeout=900 native=no opt_covers=declared_size_mismatch_rejected
+//@ harness props=C03,C06,C07 tier=quick unwind=6 unwindset=update_table:300,ref_crc32.0:10,ref_crc32.1:300,default_read_exact:4,decompress:4,scripted_block_header:5,read_block_fields:5,spec_fill:8200 mem_gb=12 timeout=900 native=no opt_covers=declared_size_mismatch_rejected
 //@ bound: read_block with the header parser replaced by its contract, 12-byte header, no check, 2 symbolic payload bytes; block padding bytes symbolic
 #[cfg_attr(kani, kani::proof)]
 #[cfg_attr(kani, kani::stub(std::fmt::format, crate::verif_common::stub_format))]
@@ -822,5 +827,226 @@ pub fn xzblk_read_block_sym2() {
 #[cfg_attr(kani, kani::stub(crate::decode::lzma::DecoderState::new, crate::decode::stream::verif_h::new_scripted_lit))]
 #[cfg_attr(kani, kani::stub(crate::decode::lzbuffer::LzAccumBuffer::from_stream, crate::decode::lzbuffer::verif_h::accum_from_stream_with_capacity))]
 pub fn xzblk_read_block_sym3() {
-    read_block_fields::<3, 0, 3>()
+    read_block_fields::<3, 0, 3, 64>()
+}
+
+// ----- probes (thorough/optional): which adapter makes the reader opaque to constant propagation -----
+fn probe_expensive() -> u32 {
+    // a loop CBMC can only cut by knowing the condition: shows up as "Unwinding loop" lines
+    let mut x = 0u32;
+    let mut i = 0;
+    while i < 40 {
+        x = x.wrapping_mul(3).wrapping_add(i);
+        i += 1;
+    }
+    x
+}
+
+fn probe_adapters<const MODE: usize>() {
+    if MODE == 7 {
+        let mut f = [0u8; 300];
+        f[16] = 1;
+        let mut rd = ArrReader::<300>::new(f, 40);
+        let mut b = [0u8; 16];
+        let r = io::Read::read_exact(&mut rd, &mut b);
+        forget(r);
+        let s = rd.read_u8();
+        let v = match &s {
+            Ok(x) => *x,
+            Err(_) => 0,
+        };
+        forget(s);
+        if v != 1 {
+            let e = probe_expensive();
+            vassert!(e != 12345, "probe: unreachable expensive branch");
+        }
+        return;
+    }
+    if MODE == 8 {
+        let mut f = [0u8; 40];
+        f[16] = 1;
+        let mut rd = ArrReader::<40>::new(f, 40);
+        let mut ci = util::CountBufRead::new(&mut rd);
+        {
+            let mut taken = (&mut ci).take(16);
+            let mut b = [0u8; 16];
+            let r = taken.read_exact(&mut b);
+            forget(r);
+        }
+        let s = ci.read_u8();
+        let v = match &s {
+            Ok(x) => *x,
+            Err(_) => 0,
+        };
+        forget(s);
+        if v != 1 {
+            let e = probe_expensive();
+            vassert!(e != 12345, "probe: unreachable expensive branch");
+        }
+        return;
+    }
+    if MODE >= 4 {
+        // smallest possible: 40-byte array, direct reads
+        let mut f = [0u8; 40];
+        f[16] = 1;
+        let mut rd = ArrReader::<40>::new(f, 40);
+        if MODE == 5 {
+            rd.pos = 16;
+        } else {
+            let mut b = [0u8; 16];
+            let r = io::Read::read_exact(&mut rd, &mut b);
+            forget(r);
+        }
+        let s = if MODE == 6 {
+            let mut one = [0u8; 1];
+            let r = io::Read::read(&mut rd, &mut one);
+            forget(r);
+            Ok(one[0])
+        } else {
+            rd.read_u8()
+        };
+        let v = match &s {
+            Ok(x) => *x,
+            Err(_) => 0,
+        };
+        forget(s);
+        if v != 1 {
+            let e = probe_expensive();
+            vassert!(e != 12345, "probe: unreachable expensive branch");
+        }
+        return;
+    }
+    let mut f = [0u8; 300];
+    f[0] = 3;
+    f[12] = 0x55;
+    f[16] = 1;
+    let mut rd = ArrReader::<300>::new(f, 40);
+    let mut digest = CRC32.digest();
+    {
+        let mut ci = util::CountBufRead::new(&mut rd);
+        let hb = ci.read_u8();
+        forget(hb);
+        if MODE == 0 {
+            // plain: read 11 bytes through Take only
+            let mut taken = (&mut ci).take(11);
+            let mut b = [0u8; 11];
+            let r = taken.read_exact(&mut b);
+            forget(r);
+        } else if MODE == 1 {
+            let mut taken = (&mut ci).take(11);
+            let mut dr = util::CrcDigestRead::new(&mut taken, &mut digest);
+            let mut b = [0u8; 11];
+            let r = dr.read_exact(&mut b);
+            forget(r);
+        } else {
+            let mut taken = (&mut ci).take(11);
+            let mut br = io::BufReader::new(util::CrcDigestRead::new(&mut taken, &mut digest));
+            let n = match io::BufRead::fill_buf(&mut br) {
+                Ok(b) => b.len(),
+                Err(_) => 0,
+            };
+            io::BufRead::consume(&mut br, n);
+            if MODE == 3 {
+                let n2 = match io::BufRead::fill_buf(&mut br) {
+                    Ok(b) => b.len(),
+                    Err(_) => 0,
+                };
+                io::BufRead::consume(&mut br, n2);
+            }
+        }
+        let c = ci.read_u32::<LittleEndian>();
+        forget(c);
+        let s = ci.read_u8();
+        let v = match &s {
+            Ok(x) => *x,
+            Err(_) => 0,
+        };
+        forget(s);
+        if v != 1 {
+            let e = probe_expensive();
+            vassert!(e != 12345, "probe: unreachable expensive branch");
+        }
+    }
+    vassert!(rd.pos == 17, "probe: position after header, crc and one byte");
+}
+
+//@ harness props=C03 tier=thorough optional=yes unwind=45 unwindset=update_table:20,default_read_exact:4 mem_gb=6 timeout=300
+//@ bound: probe 0
+#[cfg_attr(kani, kani::proof)]
+#[cfg_attr(kani, kani::stub(std::fmt::format, crate::verif_common::stub_format))]
+#[cfg_attr(kani, kani::stub(std::io::Error::is_interrupted, crate::verif_common::stub_not_interrupted))]
+pub fn xz_probe_adapters_0() {
+    probe_adapters::<0>()
+}
+
+//@ harness props=C03 tier=thorough optional=yes unwind=45 unwindset=update_table:20,default_read_exact:4 mem_gb=6 timeout=300
+//@ bound: probe 1
+#[cfg_attr(kani, kani::proof)]
+#[cfg_attr(kani, kani::stub(std::fmt::format, crate::verif_common::stub_format))]
+#[cfg_attr(kani, kani::stub(std::io::Error::is_interrupted, crate::verif_common::stub_not_interrupted))]
+pub fn xz_probe_adapters_1() {
+    probe_adapters::<1>()
+}
+
+//@ harness props=C03 tier=thorough optional=yes unwind=45 unwindset=update_table:20,default_read_exact:4 mem_gb=6 timeout=300
+//@ bound: probe 2
+#[cfg_attr(kani, kani::proof)]
+#[cfg_attr(kani, kani::stub(std::fmt::format, crate::verif_common::stub_format))]
+#[cfg_attr(kani, kani::stub(std::io::Error::is_interrupted, crate::verif_common::stub_not_interrupted))]
+pub fn xz_probe_adapters_2() {
+    probe_adapters::<2>()
+}
+
+//@ harness props=C03 tier=thorough optional=yes unwind=45 unwindset=update_table:20,default_read_exact:4 mem_gb=6 timeout=300
+//@ bound: probe 3
+#[cfg_attr(kani, kani::proof)]
+#[cfg_attr(kani, kani::stub(std::fmt::format, crate::verif_common::stub_format))]
+#[cfg_attr(kani, kani::stub(std::io::Error::is_interrupted, crate::verif_common::stub_not_interrupted))]
+pub fn xz_probe_adapters_3() {
+    probe_adapters::<3>()
+}
+
+//@ harness props=C03 tier=thorough optional=yes unwind=45 unwindset=update_table:20,default_read_exact:4 mem_gb=6 timeout=300
+//@ bound: probe 4
+#[cfg_attr(kani, kani::proof)]
+#[cfg_attr(kani, kani::stub(std::fmt::format, crate::verif_common::stub_format))]
+#[cfg_attr(kani, kani::stub(std::io::Error::is_interrupted, crate::verif_common::stub_not_interrupted))]
+pub fn xz_probe_adapters_4() {
+    probe_adapters::<4>()
+}
+
+//@ harness props=C03 tier=thorough optional=yes unwind=45 unwindset=update_table:20,default_read_exact:4 mem_gb=6 timeout=300
+//@ bound: probe 5
+#[cfg_attr(kani, kani::proof)]
+#[cfg_attr(kani, kani::stub(std::fmt::format, crate::verif_common::stub_format))]
+#[cfg_attr(kani, kani::stub(std::io::Error::is_interrupted, crate::verif_common::stub_not_interrupted))]
+pub fn xz_probe_adapters_5() {
+    probe_adapters::<5>()
+}
+
+//@ harness props=C03 tier=thorough optional=yes unwind=45 unwindset=update_table:20,default_read_exact:4 mem_gb=6 timeout=300
+//@ bound: probe 6
+#[cfg_attr(kani, kani::proof)]
+#[cfg_attr(kani, kani::stub(std::fmt::format, crate::verif_common::stub_format))]
+#[cfg_attr(kani, kani::stub(std::io::Error::is_interrupted, crate::verif_common::stub_not_interrupted))]
+pub fn xz_probe_adapters_6() {
+    probe_adapters::<6>()
+}
+
+//@ harness props=C03 tier=thorough optional=yes unwind=45 unwindset=update_table:20,default_read_exact:4 mem_gb=6 timeout=300 cbmc=--max-field-sensitivity-array-size;512
+//@ bound: probe 7
+#[cfg_attr(kani, kani::proof)]
+#[cfg_attr(kani, kani::stub(std::fmt::format, crate::verif_common::stub_format))]
+#[cfg_attr(kani, kani::stub(std::io::Error::is_interrupted, crate::verif_common::stub_not_interrupted))]
+pub fn xz_probe_adapters_7() {
+    probe_adapters::<7>()
+}
+
+//@ harness props=C03 tier=thorough optional=yes unwind=45 unwindset=update_table:20,default_read_exact:4 mem_gb=6 timeout=300
+//@ bound: probe 8
+#[cfg_attr(kani, kani::proof)]
+#[cfg_attr(kani, kani::stub(std::fmt::format, crate::verif_common::stub_format))]
+#[cfg_attr(kani, kani::stub(std::io::Error::is_interrupted, crate::verif_common::stub_not_interrupted))]
+pub fn xz_probe_adapters_8() {
+    probe_adapters::<8>()
 }
